@@ -172,3 +172,30 @@ Inductive compat : ty -> ty -> Prop :=
 | compat_tensor e s s' : shape_le s s' = true -> compat (TTensor e s) (TTensor e s')
 | compat_seq x y : compat x y -> compat (TSeq x) (TSeq y)
 | compat_opt x y : compat x y -> compat (TOpt x) (TOpt y).
+
+(* the TypeProto that to_onnx emits for the type built from p: an empty dim_param is the same as no value *)
+Definition norm_pdim (d : pdim) : pdim := match d with PParam s => if String.eqb s "" then PNone else d | _ => d end.
+Fixpoint norm_proto (p : tproto) : tproto :=
+  match p with
+  | PEmpty => PEmpty
+  | PTensor e s => PTensor e (option_map (map norm_pdim) s)
+  | PSeq q => PSeq (norm_proto q)
+  | POpt q => POpt (norm_proto q)
+  end.
+Definition pfits_dim (d : pdim) : bool := match d with PValue n => in_int64 n | _ => true end.   (* dim_value is an int64 field *)
+Fixpoint pfits (p : tproto) : bool :=
+  match p with
+  | PEmpty => true
+  | PTensor _ s => match s with None => true | Some l => forallb pfits_dim l end
+  | PSeq q => pfits q | POpt q => pfits q
+  end.
+
+(* _strip_dim_symbol with an always-true predicate: what spox.inline does to the model's input/output types *)
+Definition strip_dim (d : dim) : dim := match d with DN _ => DA | _ => d end.
+Fixpoint strip_ty (t : ty) : ty :=
+  match t with
+  | TTop => TTop
+  | TTensor e s => TTensor e (option_map (map strip_dim) s)
+  | TSeq x => TSeq (strip_ty x)
+  | TOpt x => TOpt (strip_ty x)
+  end.
